@@ -105,6 +105,7 @@ def main():
     ap.add_argument("--replay", default=None)
     ap.add_argument("--jobs", type=int, default=min(16, os.cpu_count() or 4))
     ap.add_argument("--only", default=None, help="substring filter on function names (debugging)")
+    ap.add_argument("--write-baseline", action="store_true", help="record which obligations discharge on this (unchanged) tree")
     args = ap.parse_args()
     pid = args.pid
     seed = int(os.environ.get("VERIF_SEED", "0") or 0)
@@ -134,10 +135,16 @@ def main():
     fns.sort()
     results = []
     if fns:
-        ctx = mp.get_context("fork")
-        with ctx.Pool(min(args.jobs, len(fns))) as pool:
-            results = pool.map(_verify_one, fns, chunksize=1)
+        from concurrent.futures import ProcessPoolExecutor
 
+        ctx = mp.get_context("fork")
+        # non-daemonic workers: each function forks its own small pool to discharge its obligations
+        with ProcessPoolExecutor(max_workers=min(args.jobs, len(fns)), mp_context=ctx) as ex:
+            results = list(ex.map(_verify_one, fns))
+
+    base_path = os.path.join(VERIF, "baseline", pid + ".json")
+    baseline = json.load(open(base_path)).get("obligations", {}) if os.path.exists(base_path) else {}
+    seen_obl = {}
     violations = []  # dicts: engine, fn, obligation, model, text
     undecided = []
     obligations = 0
@@ -162,6 +169,10 @@ def main():
             obligations += 1
             solver_s += o["seconds"]
             backends[o["backend"]] = backends.get(o["backend"], 0) + 1
+            okey = o["fn"] + "|" + o["name"]
+            if o["status"] == "discharged":
+                prev = seen_obl.get(okey, [0, 0.0])
+                seen_obl[okey] = [prev[0] + 1, max(prev[1], o["seconds"])]
             if o["status"] == "discharged":
                 discharged += 1
                 if len(samples) < 6:
@@ -169,7 +180,16 @@ def main():
             elif o["status"] == "failed":
                 violations.append({"engine": "pyvc", "fn": o["fn"], "obligation": o["name"], "model": o["model"], "path": o["path"]})
             else:
-                undecided.append({"fn": o["fn"], "why": "obligation %s: %s (%s)" % (o["name"], o["status"], o["backend"])})
+                reason = (o.get("model") or {}).get("reason_unknown", "")
+                b0 = baseline.get(okey)
+                if isinstance(b0, int):
+                    b0 = [b0, 0.0]
+                if b0 and b0[0] > 0 and b0[1] <= 3.0:
+                    # an obligation that is discharged on the unchanged tree in well under a tenth of the solver
+                    # budget and can no longer be discharged: reported as failed, without a model
+                    violations.append({"engine": "pyvc", "fn": o["fn"], "obligation": o["name"], "model": {"no_model": "solver gave up without a model: " + reason, "baseline": "discharged on the unchanged tree"}, "path": o["path"]})
+                else:
+                    undecided.append({"fn": o["fn"], "why": "obligation %s: %s (%s; %s)" % (o["name"], o["status"], o["backend"], reason)})
 
     # lemmas -----------------------------------------------------------------------------------
     lemma_names = []
@@ -238,6 +258,17 @@ def main():
         for u in b.get("undecided", []):
             undecided.append({"fn": "bounded:" + name, "why": u})
         bounded_out.append(b)
+
+    if args.write_baseline and not args.only:
+        os.makedirs(os.path.dirname(base_path), exist_ok=True)
+        json.dump({"property": pid, "obligations": dict(sorted(seen_obl.items()))}, open(base_path, "w"), indent=0)
+    elif baseline and not args.only:
+        for okey, n0 in baseline.items():
+            fn0 = okey.split("|")[0]
+            if fn0 in [r["qname"] for r in results if r["status"] == "ok"] and okey not in seen_obl and not any(v.get("fn") == fn0 for v in violations) and not any(u["fn"] == fn0 for u in undecided):
+                undecided.append({"fn": fn0, "why": "obligation %s was generated and discharged on the baseline tree but was not generated now (vacuity guard)" % okey.split("|")[1]})
+    if obligations == 0 and not bounded_out and not scan_results:
+        undecided.append({"fn": pid, "why": "VACUOUS: no obligation, scan or bounded case was generated for this property"})
 
     # verdicts -----------------------------------------------------------------------------------
     findings = known_findings()
